@@ -1,5 +1,9 @@
 /* C18 correspondence harness: esl_randomseq.c, esl_msashuffle.c, esl_vectorops.c shufflers (real code, ASan/UBSan) */
 #include "hcommon.h"
+#include <unistd.h>
+#include <signal.h>
+#include <fcntl.h>
+#include <sys/stat.h>
 #include "esl_alphabet.h"
 #include "esl_random.h"
 #include "esl_randomseq.h"
@@ -10,8 +14,19 @@
 
 static ESL_RANDOMNESS *R;
 static ESL_ALPHABET *ABC_DNA, *ABC_AA;
-static void h_case_begin(void) { }
-static void h_case_end(void) { if (R) esl_randomness_Destroy(R); R = NULL; }
+/* A case takes milliseconds. A shuffler that no longer terminates is cut off after 8 s and reported as a fault of that case
+ * (the process dies by SIGALRM). Each cut-off is recorded in a file in the run's private scratch directory (the cwd);
+ * after three of them the remaining ops are answered "skipped-after-hangs" so that a broken tree is reported quickly. */
+static int h_skip;
+static void on_alarm(int sig)
+{
+  int fd = open("c18_hangs", O_WRONLY | O_CREAT | O_APPEND, 0600);
+  (void) sig;
+  if (fd >= 0) { if (write(fd, "x", 1) < 0) { } close(fd); }
+  signal(SIGALRM, SIG_DFL); raise(SIGALRM);
+}
+static void h_case_begin(void) { struct stat st; h_skip = (stat("c18_hangs", &st) == 0 && st.st_size >= 3); signal(SIGALRM, on_alarm); alarm(8); }
+static void h_case_end(void) { alarm(0); if (R) esl_randomness_Destroy(R); R = NULL; }
 
 static ESL_ALPHABET *get_abc(void)
 {
@@ -86,6 +101,8 @@ static void h_op(void)
   const char *op = h_words[0];
   int ip = (int) h_argi("ip", 0);
   int status;
+
+  if (h_skip) { h_out("skipped-after-hangs"); return; }
 
   if (!strcmp(op, "seed") || !strcmp(op, "seedfast")) {
     if (R) esl_randomness_Destroy(R);
@@ -302,6 +319,7 @@ static void h_op(void)
       if (!ip) { xs = malloc(Lx + 1); ys = malloc(Ly + 1); memset(xs, 0x77, Lx + 1); memset(ys, 0x77, Ly + 1); }
       status = esl_msashuffle_CQRNA(R, abc, (char *) x, (char *) y, xs, ys);
       if (status != eslOK) h_out("%s", h_status(status));
+      else if (xs[Lx] != 0 || ys[Ly] != 0) h_out("ok-but-no-nul");
       else { ob_reset(); ob_add("ok "); ob_add(h_hex(xs, Lx)); ob_add(","); ob_add(h_hex(ys, Ly)); h_out("%s", ob); }
       if (!ip) { free(xs); free(ys); }
     } else {
